@@ -99,7 +99,7 @@ def run(c):
             txt = re.sub(r"(?m)^INVARIANTS.*$", "INVARIANTS " + invariants, txt)
         p = c.path("%s-%s.cfg" % (mod, name))
         open(p, "w").write(txt)
-        r = c.tlc_model(mod, cfg=p, workers=workers, timeout=1700, coverage=coverage)
+        r = c.tlc_model(mod, cfg=p, workers=workers, timeout=6000, coverage=coverage)
         r["name"] = name
         return r
 
